@@ -226,8 +226,8 @@ func TestC16(t *testing.T) {
 		rt.Repeat(map[string]func(*rapid.T){
 			"placeholders": func(rt *rapid.T) {
 				// an expression over names / values that are prefixes of one another
-				names := []string{"#p", "#pk", "#pk2", "#a", "#ab", "#a_b", "#n1", "#n10"}
-				vals := []string{":p", ":pp", ":v", ":v1", ":v10", ":val", ":a", ":a_1"}
+				names := []string{"#p", "#pk", "#pk2", "#a", "#ab", "#a_b", "#n1", "#n10", "#0", "#1", "#10", "#_", "#_1", "#007"}
+				vals := []string{":p", ":pp", ":v", ":v1", ":v10", ":val", ":a", ":a_1", ":0", ":1", ":10", ":_", ":_1", ":007"}
 				usedN := rapid.SliceOfNDistinct(rapid.SampledFrom(names), 0, 2, rapid.ID[string]).Draw(rt, "usedNames")
 				usedV := rapid.SliceOfNDistinct(rapid.SampledFrom(vals), 1, 3, rapid.ID[string]).Draw(rt, "usedValues")
 				var atoms []string
@@ -390,7 +390,7 @@ func TestC16(t *testing.T) {
 			},
 			"keyCondition": func(rt *rapid.T) {
 				hv := c16KeyValue(w.m, s.Table, s.Hash)
-				c := gen.NewExprCtx(nil, o)
+				c := gen.NewExprCtx(nil, o).Style(rt)
 				h := func() model.Expr { return model.Path{Elems: []model.PathElem{{Name: c.NameTok(rt, s.Hash)}}} }
 				r := func() model.Expr { return model.Path{Elems: []model.PathElem{{Name: c.NameTok(rt, s.Range)}}} }
 				val := func() model.Expr {
